@@ -24,12 +24,15 @@ CHECKS = {
     'C06': dict(engine='DTParse',
         technique='TLA+ machine of the DTML compiler (DTScan + DTParse: tag recognisers, parse / parse_block / parse_close, '
                   'parse_params, name_param, every tag constructor, parse_error) checked by TLC; every behaviour replayed into the real '
-                  'compiler; CPU time of pump families measured',
+                  'compiler; TLA+ product machine over the automata of the regular expressions the package compiles (DTRegexAmb) '
+                  'checked by TLC for exponentially ambiguous loops, every witness (prefix, pump) measured on the real compiler; CPU '
+                  'time of fixed pump families measured',
         text='TLC checks ErrLocated (a ParseError names a tag of the source and the line of its first character), OnlyTwoErrors, '
              'FrameProgress (every loop consumes input: termination) on all item sequences, attribute lists, single mutations, '
              'truncations and random soups of the tier; the real compiler must accept / reject the same sources with the same '
-             'exception class, named tag and line, and may raise nothing but ParseError / SyntaxError on any input; pump families '
-             'bound the compile time by a cubic envelope.',
+             'exception class, named tag and line, and may raise nothing but ParseError / SyntaxError on any input; the automata of all '
+             'patterns the package compiles are searched by TLC for a loop readable in two ways (exponential backtracking) and each '
+             'witness is fed to cook() in every tag position; fixed pump families bound the compile time by a cubic envelope.',
         note='Which expression texts are invalid Python is supplied by ast.parse; accept / reject on random soups is recorded as '
              'drift, not claimed; known finding F4 (RecursionError beyond ~300 nested blocks).',
         ref='DESIGN.md section 4 C06'),
